@@ -15,13 +15,14 @@ global size_of usize == 8;
 pub struct Gc<T> { p: core::marker::PhantomData<T> }
 impl<T> Clone for Gc<T> { #[verifier::external_body] fn clone(&self) -> (r: Self) ensures r == *self { Gc { p: core::marker::PhantomData } } }
 impl<T> Copy for Gc<T> {}
+impl<T> Gc<T> { pub uninterp spec fn obj(&self) -> T; }
 pub struct ObjString { }
 //@enum file=yarel/src/error.rs name=ErrorKind
 pub struct Error { pub kind: ErrorKind }
 #[verifier::external_body]
 fn verif_error(kind: ErrorKind) -> (e: Error) ensures e.kind == kind { Error { kind } }
 
-//@enum file=yarel/src/value.rs name=Value keep=Boolean,Number,ObjString,None other=Other
+//@enum file=yarel/src/value.rs name=Value keep=Boolean,Number,ObjString,ObjRange,None other=Other
 impl Value {
     //@fn file=yarel/src/value.rs path=Value::into_bool ret=r
     //@  ensures r == !(*self == Value::Boolean(false) || *self is None)
@@ -29,6 +30,26 @@ impl Value {
     //@fn file=yarel/src/value.rs path=Value::try_as_number ret=r
     //@  ensures r == (match *self { Value::Number(n) => Some(n), _ => None })
     //@end
+    //@fn file=yarel/src/value.rs path=Value::try_as_obj_string ret=r
+    //@  ensures r == (match *self { Value::ObjString(g) => Some(g), _ => None })
+    //@end
+}
+pub struct ObjRange { pub begin: isize, pub end: isize }
+// utils.rs validate_integer (its own contract: Kani unit utils, all f64): Ok(i) exactly for integral numbers, i their value
+pub uninterp spec fn int_of(v: Value) -> Option<isize>;
+#[verifier::external_body]
+fn validate_integer(v: Value) -> (r: Result<isize, Error>)
+    ensures int_of(v) matches Some(i) ==> r == Ok::<isize, Error>(i), int_of(v) is None ==> (r matches Err(e) && (e.kind is TypeError || e.kind is ValueError)),
+{ unimplemented!() }
+// what `format!("{}", value)` prints for a value (Display for Value: not under contract), interned (C11)
+pub uninterp spec fn display(v: Value) -> Gc<ObjString>;
+// the text a sequence of strings concatenates to, interned (C11)
+pub uninterp spec fn concat_all(parts: Seq<Gc<ObjString>>) -> Gc<ObjString>;
+// `String::new()` / `push_str(x.as_str())`: the buffer as the sequence of parts appended so far
+pub struct StrBuf { pub ghost parts: Seq<Gc<ObjString>> }
+impl StrBuf {
+    #[verifier::external_body] fn new() -> (r: StrBuf) ensures r.parts == Seq::<Gc<ObjString>>::empty() { unimplemented!() }
+    #[verifier::external_body] fn push_part(&mut self, x: Gc<ObjString>) ensures final(self).parts == old(self).parts.push(x) { unimplemented!() }
 }
 // IEEE operations on doubles (machine arithmetic, outside Verus): uninterpreted
 pub uninterp spec fn fadd(a: f64, b: f64) -> f64;
@@ -46,7 +67,7 @@ pub uninterp spec fn lang_eq(a: Value, b: Value) -> bool;
 // concatenation of two strings, interned (C11)
 pub uninterp spec fn concat(a: Gc<ObjString>, b: Gc<ObjString>) -> Gc<ObjString>;
 
-pub struct Vm { pub ghost stack: Seq<Value>, pub ghost raised: Option<ErrorKind> }
+pub struct Vm { pub ghost stack: Seq<Value>, pub ghost raised: Option<ErrorKind>, pub ghost next_byte: u8 }
 impl Vm {
     pub open spec fn top(&self, depth: int) -> Value { self.stack[self.stack.len() - 1 - depth] }
     pub open spec fn below2(&self) -> Seq<Value> { self.stack.take(self.stack.len() - 2) }
@@ -105,6 +126,52 @@ impl Vm {
     //@  requires old(self).stack.len() >= 1
     //@  ensures @a_number_is_negated old(self).stack.last() is Number ==> r is Ok && final(self).stack == old(self).stack.drop_last().push(Value::Number(fneg(old(self).stack.last()->Number_0))) && final(self).raised == old(self).raised
     //@  ensures @negating_a_non_number_is_a_type_error !(old(self).stack.last() is Number) ==> final(self).raised == Some(ErrorKind::TypeError)
+    //@end
+
+    #[verifier::external_body]
+    fn peek(&self, depth: usize) -> (r: Value) requires depth < self.stack.len() ensures r == self.top(depth as int) { unimplemented!() }
+    #[verifier::external_body]
+    fn poke(&mut self, depth: usize, value: Value) requires depth < old(self).stack.len() ensures final(self).stack == old(self).stack.update(old(self).stack.len() - 1 - depth, value), final(self).raised == old(self).raised { unimplemented!() }
+    #[verifier::external_body]
+    fn discard(&mut self, num: usize) requires num <= old(self).stack.len() ensures final(self).stack == old(self).stack.take(old(self).stack.len() - num), final(self).raised == old(self).raised { unimplemented!() }
+    #[verifier::external_body]
+    fn read_byte(&mut self) -> (r: u8) ensures r == old(self).next_byte, final(self).stack == old(self).stack, final(self).raised == old(self).raised { unimplemented!() }
+    // vm.rs build_range (its own contract: unit rangecache): a range object with exactly these bounds
+    #[verifier::external_body]
+    fn build_range(&mut self, begin: isize, end: isize) -> (r: Gc<ObjRange>) ensures r.obj().begin == begin && r.obj().end == end, final(self).stack == old(self).stack, final(self).raised == old(self).raised { unimplemented!() }
+    #[verifier::external_body]
+    fn display_string(&mut self, value: Value) -> (r: Gc<ObjString>) ensures r == display(value), final(self).stack == old(self).stack, final(self).raised == old(self).raised { unimplemented!() }
+    #[verifier::external_body]
+    fn intern_parts(&mut self, buf: &StrBuf) -> (r: Gc<ObjString>) ensures r == concat_all(buf.parts), final(self).stack == old(self).stack, final(self).raised == old(self).raised { unimplemented!() }
+
+    // `a..b`: a is pushed first; both bounds must be integers
+    //@fn file=yarel/src/vm.rs path=Vm::build_range_impl ret=r props=C05,C13,C02
+    //@  subst "utils::validate_integer" => "validate_integer"
+    //@  requires old(self).stack.len() >= 2
+    //@  ensures @range_bounds_are_the_operands_in_source_order (int_of(old(self).top(1)) is Some && int_of(old(self).top(0)) is Some) ==> r is Ok && final(self).stack.len() == old(self).stack.len() - 1 && final(self).stack.drop_last() == old(self).below2() && (final(self).stack.last() matches Value::ObjRange(g) && g.obj().begin == int_of(old(self).top(1))->0 && g.obj().end == int_of(old(self).top(0))->0) && final(self).raised == old(self).raised
+    //@  ensures @a_non_integer_bound_is_a_reported_error !(int_of(old(self).top(1)) is Some && int_of(old(self).top(0)) is Some) ==> (final(self).raised == Some(ErrorKind::TypeError) || final(self).raised == Some(ErrorKind::ValueError))
+    //@end
+
+    // one part of an interpolated string: a string stays as it is, anything else is replaced by its printed form
+    //@fn file=yarel/src/vm.rs path=Vm::format_string_impl props=C05
+    //@  subst "self.new_gc_obj_string(format!(\"{}\", value).as_str())" => "self.display_string(value)"
+    //@  requires old(self).stack.len() >= 1
+    //@  ensures @an_interpolated_part_becomes_its_printed_form_in_place final(self).stack == old(self).stack.drop_last().push(if old(self).stack.last() is ObjString { old(self).stack.last() } else { Value::ObjString(display(old(self).stack.last())) }) && final(self).raised == old(self).raised
+    //@end
+
+    // an interpolated string: its parts, in source order (deepest operand first), concatenated into one string
+    //@fn file=yarel/src/vm.rs path=Vm::build_string_impl props=C05
+    //@  rewrite R5
+    //@  subst "let mut new_string = String::new();" => "let mut new_string = StrBuf::new();"
+    //@  subst "new_string.push_str(self.peek(pos).try_as_obj_string().unwrap().as_str())" => "new_string.push_part(self.peek(pos).try_as_obj_string().unwrap());"
+    //@  subst "self.new_gc_obj_string(new_string.as_str())" => "self.intern_parts(&new_string)"
+    //@  requires old(self).next_byte <= old(self).stack.len(), forall|i: int| old(self).stack.len() - old(self).next_byte <= i < old(self).stack.len() ==> #[trigger] old(self).stack[i] is ObjString
+    //@  ensures @a_single_part_is_the_string old(self).next_byte == 1 ==> final(self).stack == old(self).stack
+    //@  ensures @parts_are_concatenated_in_source_order old(self).next_byte != 1 ==> final(self).stack.len() == old(self).stack.len() - old(self).next_byte + 1 && final(self).stack.drop_last() == old(self).stack.take(old(self).stack.len() - old(self).next_byte) && (exists|parts: Seq<Gc<ObjString>>| parts.len() == old(self).next_byte && (forall|j: int| 0 <= j < parts.len() ==> old(self).stack[old(self).stack.len() - old(self).next_byte + j] == Value::ObjString(#[trigger] parts[j])) && final(self).stack.last() == Value::ObjString(concat_all(parts)))
+    //@  loop 0 invariant self.stack == old(self).stack, num_operands == old(self).next_byte, __k0 <= num_operands, new_string.parts.len() == num_operands - __k0
+    //@  loop 0 invariant forall|j: int| 0 <= j < new_string.parts.len() ==> old(self).stack[old(self).stack.len() - num_operands + j] == Value::ObjString(#[trigger] new_string.parts[j])
+    //@  loop 0 invariant num_operands <= old(self).stack.len(), forall|i: int| old(self).stack.len() - num_operands <= i < old(self).stack.len() ==> #[trigger] old(self).stack[i] is ObjString
+    //@  loop 0 decreases __k0
     //@end
 
     //@fn file=yarel/src/vm.rs path=Vm::bitwise_not_impl ret=r
